@@ -19,20 +19,20 @@ pub struct Env {
     pub log: Ghost<Seq<Act>>,        // effects on the outside world, in order
     pub live: Ghost<Set<int>>,       // children spawned and not yet reaped
     pub raised: Ghost<Set<int>>,     // flags raised
-    pub urgent: Ghost<Seq<int>>,     // ids of the control messages waiting in the three queues (head = oldest)
-    pub high: Ghost<Seq<int>>,
-    pub normal: Ghost<Seq<int>>,
+    pub urgent: Ghost<Seq<ControlMessage>>,     // the control messages waiting in the three queues (head = oldest)
+    pub high: Ghost<Seq<ControlMessage>>,
+    pub normal: Ghost<Seq<ControlMessage>>,
 }
 
 // frame: what an environment call that only lets time pass / lets other tasks send may change
-pub open spec fn is_prefix_grown(a: Seq<int>, b: Seq<int>) -> bool { a.len() <= b.len() && b.subrange(0, a.len() as int) == a }
+pub open spec fn is_prefix_grown(a: Seq<ControlMessage>, b: Seq<ControlMessage>) -> bool { a.len() <= b.len() && b.subrange(0, a.len() as int) == a }
 pub open spec fn grows(a: &Env, b: &Env) -> bool {
     is_prefix_grown(a.urgent@, b.urgent@) && is_prefix_grown(a.high@, b.high@) && is_prefix_grown(a.normal@, b.normal@)
 }
 // blocking operations (await points, syscalls, user callbacks) let time pass; non-blocking ones (Instant::now, try_recv, raise) do not
 pub open spec fn arrivals_only(a: &Env, b: &Env) -> bool { b.now@ >= a.now@ && grows(a, b) }
 pub open spec fn same_world(a: &Env, b: &Env) -> bool { a.log == b.log && a.live == b.live && a.raised == b.raised }
-pub broadcast proof fn prefix_trans(a: Seq<int>, b: Seq<int>, c: Seq<int>)
+pub broadcast proof fn prefix_trans(a: Seq<ControlMessage>, b: Seq<ControlMessage>, c: Seq<ControlMessage>)
     requires #[trigger] is_prefix_grown(a, b), #[trigger] is_prefix_grown(b, c)
     ensures is_prefix_grown(a, c)
 {
@@ -40,7 +40,7 @@ pub broadcast proof fn prefix_trans(a: Seq<int>, b: Seq<int>, c: Seq<int>)
         assert(c.subrange(0, b.len() as int) == b);
     }
 }
-pub broadcast proof fn prefix_refl(a: Seq<int>)
+pub broadcast proof fn prefix_refl(a: Seq<ControlMessage>)
     ensures #[trigger] is_prefix_grown(a, a)
 { assert(a.subrange(0, a.len() as int) =~= a); }
 
@@ -94,6 +94,13 @@ impl Flag {
     #[verifier::external_body]
     pub fn raised(&self, env: &mut Env) -> (r: bool)
         ensures r == old(env).raised@.contains(self.id), *final(env) == *old(env)
+    { unimplemented!() }
+    // Flag::new(value)
+    #[verifier::external_body]
+    pub fn new(value: bool, env: &mut Env) -> (r: Flag)
+        ensures value ==> final(env).raised@ == old(env).raised@.insert(r.id), !value ==> !old(env).raised@.contains(r.id) && final(env).raised == old(env).raised,
+            final(env).log == old(env).log, final(env).live == old(env).live, final(env).now == old(env).now,
+            final(env).urgent == old(env).urgent, final(env).high == old(env).high, final(env).normal == old(env).normal,
     { unimplemented!() }
     // Flag::default(): a fresh, unraised flag
     #[verifier::external_body]
@@ -251,11 +258,10 @@ pub assume_specification<T, F: FnOnce() -> Option<T>> [Option::<T>::or_else] (o:
     ensures o is Some ==> r == o, o is None ==> f.ensures((), r);
 
 // ---- tokio mpsc unbounded channels carrying ControlMessage: ASSUMED CONTRACT (FIFO, exactly once) ------
-pub uninterp spec fn msg_id(m: ControlMessage) -> int;
 pub struct Rx { pub which: u8 }  // 0 urgent 1 high 2 normal
 #[derive(Clone)]
 pub struct Tx { pub which: u8 }
-pub open spec fn q(env: &Env, w: u8) -> Seq<int> { if w == 0 { env.urgent@ } else if w == 1 { env.high@ } else { env.normal@ } }
+pub open spec fn q(env: &Env, w: u8) -> Seq<ControlMessage> { if w == 0 { env.urgent@ } else if w == 1 { env.high@ } else { env.normal@ } }
 pub open spec fn others_same(a: &Env, b: &Env, w: u8) -> bool {
     (w != 0 ==> b.urgent == a.urgent) && (w != 1 ==> b.high == a.high) && (w != 2 ==> b.normal == a.normal) && b.now == a.now && same_world(a, b)
 }
@@ -263,7 +269,7 @@ impl Rx {
     #[verifier::external_body]
     pub fn try_recv(&mut self, env: &mut Env) -> (r: Result<ControlMessage, ()>)
         ensures final(self).which == old(self).which, others_same(old(env), final(env), old(self).which),
-            q(old(env), old(self).which).len() > 0 ==> r is Ok && msg_id(r->Ok_0) == q(old(env), old(self).which)[0]
+            q(old(env), old(self).which).len() > 0 ==> r is Ok && r->Ok_0 == q(old(env), old(self).which)[0]
                 && q(final(env), old(self).which) == q(old(env), old(self).which).subrange(1, q(old(env), old(self).which).len() as int),
             q(old(env), old(self).which).len() == 0 ==> r is Err && q(final(env), old(self).which) == q(old(env), old(self).which),
     { unimplemented!() }
@@ -272,7 +278,7 @@ impl Rx {
     pub fn recv_ready(&mut self, env: &mut Env) -> (r: Option<ControlMessage>)
         requires q(old(env), old(self).which).len() > 0,
         ensures final(self).which == old(self).which, others_same(old(env), final(env), old(self).which),
-            r is Some && msg_id(r->Some_0) == q(old(env), old(self).which)[0]
+            r is Some && r->Some_0 == q(old(env), old(self).which)[0]
                 && q(final(env), old(self).which) == q(old(env), old(self).which).subrange(1, q(old(env), old(self).which).len() as int),
     { unimplemented!() }
 }
@@ -281,7 +287,7 @@ impl Tx {
     #[verifier::external_body]
     pub fn send(&self, message: ControlMessage, env: &mut Env) -> (r: Result<(), ()>)
         ensures others_same(old(env), final(env), self.which),
-            q(final(env), self.which) == q(old(env), self.which).push(msg_id(message)),
+            q(final(env), self.which) == q(old(env), self.which).push(message),
     { unimplemented!() }
 }
 
@@ -308,7 +314,7 @@ impl RecvFut {
     pub fn vx_complete(self, env: &mut Env) -> (r: Option<ControlMessage>)
         requires q(old(env), self.which).len() > 0, self.which <= 2,
         ensures others_same(old(env), final(env), self.which),
-            r is Some && msg_id(r->Some_0) == q(old(env), self.which)[0]
+            r is Some && r->Some_0 == q(old(env), self.which)[0]
                 && q(final(env), self.which) == q(old(env), self.which).subrange(1, q(old(env), self.which).len() as int),
     { unimplemented!() }
 }
@@ -327,3 +333,9 @@ pub fn vx_select3(b0: Branch, b1: Branch, b2: Branch, env: &mut Env) -> (i: usiz
 // a select! arm whose `if` guard is false is never run
 #[verifier::external_body]
 pub fn vx_branch_disabled<T>() -> (r: T) ensures false { unimplemented!() }
+
+// `controls.into_iter().next().expect(..)` / `for control in controls` on a by-value array (R8 type map: array -> its element sequence)
+#[verifier::external_body]
+pub fn vx_array_first<const N: usize>(a: [Control; N]) -> (r: Control) requires N > 0 ensures r == a@[0] { unimplemented!() }
+#[verifier::external_body]
+pub fn vx_array_to_vec<const N: usize>(a: [Control; N]) -> (r: Vec<Control>) ensures r@ == a@ { unimplemented!() }
